@@ -34,7 +34,7 @@ const drmConfigFile = "/repo/pkg/drm/testdata/drm_config_test.json"
 const altAsset = "testpic_alt_seg_dur_stl"
 
 // option families in the order in which their parts are put into the URL
-var optOrder = []string{"patch", "mode", "numbering", "ato", "chunk", "periods", "timesubs", "fault", "protection"}
+var optOrder = []string{"patch", "session", "presentation", "mode", "numbering", "ato", "chunk", "periods", "timesubs", "fault", "protection"}
 
 type target struct {
 	Family string            `json:"family"`
@@ -139,16 +139,18 @@ func newHistoryEnv() (*historyEnv, error) {
 		prot = append(prot, "drm_"+p+"/")
 	}
 	env.alts = map[string][]string{
-		"protection": prot,
-		"chunk":      {"", "chunkdur_0.5/ato_1.5/"},
-		"ato":        {"", "ato_1/", "ato_2.5/", "ato_inf/"},
-		"numbering":  {"", "snr_7/", "start_1000/", "tsbd_30/"},
-		"fault":      {"", "statuscode_[{cycle:30,rsq:1,code:404}]/", "traffic_u50d1/"},
-		"periods":    {"", "periods_60/", "periods_60/continuous_1/"},
-		"timesubs":   {"", "timesubsstpp_en,sv/", "timesubswvtt_en/"},
-		"mode":       {"", "segtimeline_1/", "segtimelinenr_1/"},
+		"protection":   prot,
+		"chunk":        {"", "chunkdur_0.5/ato_1.5/"},
+		"ato":          {"", "ato_1/", "ato_2.5/", "ato_inf/"},
+		"numbering":    {"", "snr_7/", "start_1000/", "tsbd_30/"},
+		"session":      {"", "stoprel_20/", "startrel_-60/stoprel_-10/"},
+		"presentation": {"", "spd_10/", "mup_2/", "spd_10/mup_2/"},
+		"fault":        {"", "statuscode_[{cycle:30,rsq:1,code:404}]/", "traffic_u50d1/"},
+		"periods":      {"", "periods_60/", "periods_60/continuous_1/"},
+		"timesubs":     {"", "timesubsstpp_en,sv/", "timesubswvtt_en/"},
+		"mode":         {"", "segtimeline_1/", "segtimelinenr_1/"},
 	}
-	env.kindList = []string{"protection", "chunk", "ato", "numbering", "fault", "periods", "timesubs", "mode", "time", "time-backwards", "error", "repeat", "sibling", "form"}
+	env.kindList = []string{"session", "presentation", "protection", "chunk", "ato", "numbering", "fault", "periods", "timesubs", "mode", "time", "time-backwards", "error", "repeat", "sibling", "form"}
 	env.prep, err = lib.NewLivesim(root, serverMod(env))
 	if err != nil {
 		cleanup()
@@ -213,6 +215,31 @@ func (env *historyEnv) targets(asset string, now int64) []target {
 			}
 		}
 	}
+	// the end of a time-limited session lies between the old publishTime and now: the MPD turns static
+	stopS := (now - 3000) / 1000
+	sess := map[string]string{"session": fmt.Sprintf("stop_%d/", stopS), "presentation": "spd_10/", "mode": "segtimeline_1/"}
+	ts = append(ts, mk("mpd-after-stop", sess, "Manifest.mpd"), mk("mpd-presentation-options", map[string]string{"presentation": "spd_10/mup_2/", "mode": "segtimelinenr_1/"}, "Manifest.mpd"))
+	patchOf := func(fam string, opts map[string]string, oldNow, newNow int64) {
+		o2 := map[string]string{"patch": "patch_60/"}
+		for k, v := range opts {
+			o2[k] = v
+		}
+		old := mk("x", o2, "Manifest.mpd")
+		old.NowMS = oldNow
+		if o := lib.ObserveMPD(env.prep.Get(old.url())); o != nil && o.PatchLocation != "" {
+			if i := strings.Index(o.PatchLocation, "?"); i >= 0 {
+				t := mk(fam, o2, "Manifest.mpp")
+				t.Patch, t.Query, t.NowMS = true, strings.ReplaceAll(o.PatchLocation[i+1:], "&amp;", "&"), newNow
+				ts = append(ts, t)
+			}
+		}
+	}
+	patchOf("patch-across-stop", sess, now-12000, now)
+	patchOf("patch-across-stop-timeline-number", map[string]string{"session": fmt.Sprintf("stop_%d/", stopS), "mode": "segtimelinenr_1/"}, now-12000, now)
+	patchOf("patch-presentation-options", map[string]string{"presentation": "spd_10/mup_2/", "mode": "segtimeline_1/"}, now-12000, now)
+	// a period boundary (every full minute with periods_60) between the old publishTime and now
+	minute := (now/60000)*60000 + 60000
+	patchOf("patch-across-period", map[string]string{"periods": "periods_60/", "mode": "segtimeline_1/"}, minute-7000, minute+5000)
 	// patch: the location announced 12 s earlier, asked now
 	for _, mode := range []string{"segtimeline_1/", "segtimelinenr_1/"} {
 		old := mk("x", map[string]string{"patch": "patch_60/", "mode": mode}, "Manifest.mpd")
@@ -316,8 +343,10 @@ func (env *historyEnv) neighbours(t target, kind string) []string {
 		d := t.with("numbering", "tsbd_x/")
 		e := t.with("protection", "drm_nosuchpackage/")
 		out = append(out, a.url(), b.url(), c.url(), d.url(), e.url())
-	case "repeat":
-		out = append(out, t.url(), t.url())
+	case "repeat": // map-iteration nondeterminism needs several tries to show
+		for k := 0; k < 5; k++ {
+			out = append(out, t.url())
+		}
 	case "sibling":
 		if r, ok := swapRep(t.Rest); ok {
 			x := t
@@ -438,37 +467,55 @@ func refChild(args []string) {
 		fmt.Fprintln(os.Stderr, "refchild:", err)
 		os.Exit(3)
 	}
-	data, _ := json.Marshal(project(ls.Get(in.URL)))
+	var ps []proj
+	for k := 0; k < 4; k++ {
+		ps = append(ps, project(ls.Get(in.URL)))
+	}
+	data, _ := json.Marshal(ps)
 	fmt.Println("C07REF " + string(data))
 }
 
 // freshAnswers asks every URL of a brand-new server in a brand-new process.
 func freshAnswers(env *historyEnv, urls []string) (map[string]proj, error) {
+	out, _, err := freshAnswersN(env, urls, 1)
+	return out, err
+}
+
+// freshAnswersN: `procs` fresh processes per URL, each asking the URL four times. unstable lists the
+// URLs whose answers were not all identical (the property: identical requests, identical bytes).
+func freshAnswersN(env *historyEnv, urls []string, procs int) (out map[string]proj, unstable map[string]string, err error) {
 	exe, err := os.Executable()
 	if err != nil {
-		return nil, err
+		return nil, nil, err
 	}
-	out := map[string]proj{}
+	out, unstable = map[string]proj{}, map[string]string{}
 	var mu sync.Mutex
 	var firstErr error
 	var wg sync.WaitGroup
-	work := make(chan string, len(urls))
-	for _, u := range urls {
-		work <- u
+	type job struct {
+		u string
+		k int
+	}
+	work := make(chan job, len(urls)*procs)
+	for k := 0; k < procs; k++ {
+		for _, u := range urls {
+			work <- job{u, k}
+		}
 	}
 	close(work)
 	for k := 0; k < 12; k++ {
 		wg.Add(1)
 		go func() {
 			defer wg.Done()
-			for u := range work {
+			for j := range work {
+				u := j.u
 				arg, _ := json.Marshal(refIn{Root: env.root, DRM: env.hasDRM, URL: u})
 				res, err := exec.Command(exe, "refchild", string(arg)).Output()
-				var p proj
+				var ps []proj
 				ok := false
 				for _, line := range strings.Split(string(res), "\n") {
 					if strings.HasPrefix(line, "C07REF ") {
-						ok = json.Unmarshal([]byte(line[len("C07REF "):]), &p) == nil
+						ok = json.Unmarshal([]byte(line[len("C07REF "):]), &ps) == nil && len(ps) > 0
 					}
 				}
 				mu.Lock()
@@ -477,14 +524,21 @@ func freshAnswers(env *historyEnv, urls []string) (map[string]proj, error) {
 						firstErr = fmt.Errorf("fresh instance for %s: %v", u, err)
 					}
 				} else {
-					out[u] = p
+					if _, have := out[u]; !have {
+						out[u] = ps[0]
+					}
+					for i, p := range ps {
+						if p != out[u] && unstable[u] == "" {
+							unstable[u] = fmt.Sprintf("fresh process %d, serving %d: %v; another serving: %v", j.k, i, p, out[u])
+						}
+					}
 				}
 				mu.Unlock()
 			}
 		}()
 	}
 	wg.Wait()
-	return out, firstErr
+	return out, unstable, firstErr
 }
 
 // ---------------------------------------------------------------- run
@@ -529,12 +583,23 @@ func runHistories(c *lib.Ctx) (int, error) {
 			urls = append(urls, u)
 		}
 	}
-	fresh, err := freshAnswers(env, urls)
+	procs := 2
+	if c.Thorough() {
+		procs = 4
+	}
+	fresh, unstable, err := freshAnswersN(env, urls, procs)
 	if err != nil {
 		return 0, err
 	}
 	for _, u := range urls {
 		c.Count(fmt.Sprintf("history-target-status:%d", fresh[u].Status))
+	}
+	for _, t := range ts {
+		if why, bad := unstable[t.url()]; bad {
+			c.Fail("history:"+t.url(), "history:"+t.Family+":repeat-fresh", fmt.Sprintf("%s asked repeatedly of fresh instances (nothing else served): %s", t.url(), why),
+				c07in{Kind: "history", URL: t.url(), Mode: "repeat-fresh", History: &history{Target: t, Kind: "repeat-fresh", Reqs: []string{t.url(), t.url(), t.url(), t.url(), t.url(), t.url()}}})
+			delete(unstable, t.url())
+		}
 	}
 	reported := map[string]int{}
 	check := func(mode string, h history, got proj) {
@@ -690,6 +755,17 @@ func replayHistory(c *lib.Ctx, in c07in) error {
 	}
 	defer env.cleanup()
 	h := *in.History
+	if in.Mode == "repeat-fresh" {
+		_, unstable, err := freshAnswersN(env, []string{h.Target.url()}, 4)
+		if err != nil {
+			return err
+		}
+		if why, bad := unstable[h.Target.url()]; bad {
+			fmt.Printf("replay C07: %s: %s\n", h.Target.url(), why)
+			c.Fail("replay", "history:"+h.Target.Family+":repeat-fresh", why, in)
+		}
+		return nil
+	}
 	fresh, err := freshAnswers(env, []string{h.Target.url()})
 	if err != nil {
 		return err
